@@ -2,10 +2,20 @@
 Model of the run histories of `neuropixel.NP2Converter` (src/neuropixel.py) as a state machine over an
 abstract disk.  Import-free apart from the window generator model, executable.
 
-One step of a history is
+One step of a history is either (`reuse = false`)
 
     conv = NP2Converter(ap_file, post_check=…, delete_original=…, compress=…); conv.init_params(nwindow=w)
     conv.process(overwrite=…)                      # possibly interrupted by an exception at a `Point`
+
+or (`reuse = true`) `conv.process(overwrite=…)` once more on the converter OBJECT of the previous step, whose fields
+(`sr`/`ap_file`, `check_completed`, `already_exists`, the options) persist between calls:
+
+  __init__               self.sr = spikeglx.Reader(ap_file, sort=False); self.check_metadata(); self.init_params()
+  compress_NP21          self.ap_file = cbin_file; self.sr = spikeglx.Reader(self.ap_file)      -- default sort=True
+  init_params            self.check_completed = False          (never reset by process())
+  _prepare_files_*       self.already_exists = False           (reset on every call)
+  delete_NP24            self.sr.close(); self.ap_file.unlink()   -- the object keeps the closed reader: a later read of the
+                         np.memmap of a .bin is a segmentation fault; an mtscomp reader of a .cbin still answers
 
 on a disk that holds the original recording `probe00/X.ap.{bin|cbin}` (+ `.meta`, `.ch`), and -- for NP2.4 --
 the sibling folders `probe00a … probe00d` with `X.ap.*` and `X.lf.*`, or -- for NP2.1 -- the `X.lf.*` files
@@ -139,7 +149,33 @@ structure Call where
   corrupt : Option Alter
   /-- the converter is pointed at shank 0's ap file (an already split shank) instead of the original -/
   onShank : Bool
+  /-- `process` is called again on the converter object of the previous step (its options and target are kept; `opts`
+  and `onShank` of this call are not consulted) -/
+  reuse : Bool
 deriving DecidableEq, Repr
+
+/-- The fields of an `NP2Converter` object that persist between `process` calls. -/
+structure Obj where
+  opts : Opts
+  /-- built on an already split shank file: `already_processed` -/
+  onShank : Bool
+  /-- the file `self.sr` / `self.ap_file` point at -/
+  srForm : Orig
+  /-- `compress_NP21` of this object has re-opened the reader with `spikeglx.Reader(self.ap_file)`, i.e. with the default
+  `sort=True`: from then on `self.sr[…]` returns the channels in sorted, not in acquisition order -/
+  srSorted : Bool
+  /-- `delete_NP24` of this object has closed `self.sr` and unlinked that file -/
+  srClosed : Bool
+  /-- `self.check_completed` -/
+  checkCompleted : Bool
+  /-- `self.already_exists` as left by the last `_prepare_files_*` (false before the first call) -/
+  alreadyExists : Bool
+deriving DecidableEq, Repr
+
+/-- The disk and the live converter object (none before the first construction or after a failed one). -/
+structure St where
+  disk : Disk
+  obj : Option Obj
 
 /-- What is fixed along one history. -/
 structure Cfg where
@@ -158,6 +194,8 @@ inductive Err
   | injected      -- the environment's exception
   | assertion     -- "data in original file and split files do no match"
   | noOriginal    -- `spikeglx.Reader(ap_file)` in the constructor: FileNotFoundError
+  | crash         -- the interpreter dies (segmentation fault reading the closed np.memmap of a deleted .bin)
+  | fileNotFound  -- `self.ap_file.unlink()` in delete_NP24 on a file this object has already unlinked
   | outOfScope    -- a call this model does not describe (never generated by the harness)
 deriving DecidableEq, Repr
 
@@ -262,65 +300,81 @@ def verifyReads (cfg : Cfg) (call : Call) : Nat :=
   | some x => if splitDiffers cfg call then min ((x.kv + 1) * (1 + cfg.n)) (nverif cfg * (1 + cfg.n)) else nverif cfg * (1 + cfg.n)
   | none => nverif cfg * (1 + cfg.n)
 
-/-- `_process_NP24` on the original. -/
-def process24 (cfg : Cfg) (call : Call) (s : Disk) : Disk × Result :=
-  if !origReadable s then (s, .raised .noOriginal) else
-  -- self.shank_info = self._prepare_files_NP24(overwrite=overwrite)
+/-- `self.sr[first:last, …]` (first statement of the window loop) on the closed memmap of a deleted `.bin`. -/
+def readCrashes (ob : Obj) : Bool := ob.srClosed && (ob.srForm == .bin)
+
+/-- `_process_NP24` of the object `ob` (built on the original). -/
+def process24 (cfg : Cfg) (ob : Obj) (call : Call) (s : Disk) : Disk × Obj × Result :=
+  -- self.shank_info = self._prepare_files_NP24(overwrite=overwrite)      (sets self.already_exists afresh)
   let s1 := prepare24 cfg.n call.overwrite s
+  let ob1 := { ob with alreadyExists := alreadyExists24 cfg.n call.overwrite s }
   -- if self.already_exists: return 0
-  if alreadyExists24 cfg.n call.overwrite s then (s1, .ret 0) else
-  -- for first, last in wg.firstlast: … self._split2shanks(ap); self._split2shanks(lf)
+  if alreadyExists24 cfg.n call.overwrite s then (s1, ob1, .ret 0) else
+  -- for first, last in wg.firstlast: chunk_ap = self.sr[first:last, …] …
+  if readCrashes ob then (s1, ob1, .raised .crash) else
+  -- … self._split2shanks(ap); self._split2shanks(lf)
   let tot := 2 * nproc cfg
   let j := stopAt call.interrupt Point.splitIdx tot
   let s2 := windows24 cfg call j s1
-  if j < tot then (s2, .raised .injected) else
+  if j < tot then (s2, ob1, .raised .injected) else
   -- self._writemetadata_ap(); self._writemetadata_lf()
   let m := stopAt call.interrupt Point.metaIdx (2 * cfg.n)
   let s3 := metas24 cfg.n m s2
-  if m < 2 * cfg.n then (s3, .raised .injected) else
+  if m < 2 * cfg.n then (s3, ob1, .raised .injected) else
   -- if self.post_check: self.check_NP24()      (the assert of the window holding the altered sample ends the loop)
-  if call.opts.postCheck && decide (stopAt call.interrupt Point.verifyIdx (verifyReads cfg call) < verifyReads cfg call)
-    then (s3, .raised .injected) else
-  if call.opts.postCheck && splitDiffers cfg call then (s3, .raised .assertion) else
-  let checkCompleted := call.opts.postCheck
+  if ob.opts.postCheck && decide (stopAt call.interrupt Point.verifyIdx (verifyReads cfg call) < verifyReads cfg call)
+    then (s3, ob1, .raised .injected) else
+  if ob.opts.postCheck && splitDiffers cfg call then (s3, ob1, .raised .assertion) else
+  -- self.check_completed = True   at the end of check_NP24; otherwise the object keeps its earlier value
+  let ob2 := { ob1 with checkCompleted := ob.checkCompleted || ob.opts.postCheck }
   -- if self.compress: self.compress_NP24(overwrite=overwrite)
   let q := stopAt call.interrupt Point.compressIdx (2 * cfg.n)
-  let s4 := if call.opts.compress then compress24 cfg call q s3 else s3
-  if call.opts.compress && decide (q < 2 * cfg.n) then (s4, .raised .injected) else
+  let s4 := if ob.opts.compress then compress24 cfg call q s3 else s3
+  if ob.opts.compress && decide (q < 2 * cfg.n) then (s4, ob2, .raised .injected) else
   -- if self.delete_original: self.delete_NP24()
-  if call.opts.deleteOriginal then
-    if call.interrupt = some .delete then (s4, .raised .injected) else
-    -- if self.check_completed and self.delete_original: self.ap_file.unlink()
-    if checkCompleted && call.opts.deleteOriginal then ({ s4 with orig := .absent }, .ret 1) else (s4, .ret 1)
-  else (s4, .ret 1)
+  if ob.opts.deleteOriginal then
+    if call.interrupt = some .delete then (s4, ob2, .raised .injected) else
+    -- if self.check_completed and self.delete_original: self.sr.close(); self.ap_file.unlink()
+    if ob2.checkCompleted && ob.opts.deleteOriginal then
+      if ob.srClosed then (s4, ob2, .raised .fileNotFound)
+      else ({ s4 with orig := .absent }, { ob2 with srClosed := true }, .ret 1)
+    else (s4, ob2, .ret 1)
+  else (s4, ob2, .ret 1)
 
 /-- `lf_file.exists() or lf_cbin_file.exists()` -/
 def lfExists (s : Disk) : Bool := (s.lf.bin != .absent) || s.lf.cbin.isSome
 
-/-- `_process_NP21`.  `post_check` and `delete_original` are not consulted by this path. -/
-def process21 (cfg : Cfg) (call : Call) (s : Disk) : Disk × Result :=
-  if !origReadable s then (s, .raised .noOriginal) else
+/-- What an NP2.1 run of `ob` writes to the lf file: derived from the channels in acquisition order, or -- through the
+re-opened sorted reader -- from permuted channels, which is not what the lf metadata describes. -/
+def lfData (cfg : Cfg) (ob : Obj) : Data := if ob.srSorted then .bad else .good cfg.c
+
+/-- `_process_NP21` of the object `ob`.  `post_check` and `delete_original` are not consulted by this path; the object's
+reader follows the original when `compress_NP21` replaces the `.bin` by the `.cbin`. -/
+def process21 (cfg : Cfg) (ob : Obj) (call : Call) (s : Disk) : Disk × Obj × Result :=
   -- _prepare_files_NP21: if not (lf_file.exists() or lf_cbin_file.exists()) or overwrite: open(lf_file, "wb")
-  if lfExists s && !call.overwrite then (s, .ret 0) else
+  let ob1 := { ob with alreadyExists := lfExists s && !call.overwrite }
+  if lfExists s && !call.overwrite then (s, ob1, .ret 0) else
   let tot := nproc cfg
   let j := stopAt call.interrupt Point.splitIdx tot
-  let s2 := { s with lf := { s.lf with bin := written tot j (.good cfg.c) true } }
-  if j < tot then (s2, .raised .injected) else
+  let s2 := { s with lf := { s.lf with bin := written tot j (lfData cfg ob) (!ob.srSorted || j == 0) } }
+  if j < tot then (s2, ob1, .raised .injected) else
   -- self._writemetadata_lf(): one write_meta_data call
   let m := stopAt call.interrupt Point.metaIdx 1
   let s3 := { s2 with lf := { s2.lf with md := s2.lf.md || decide (0 < m) } }
-  if m < 1 then (s3, .raised .injected) else
-  if call.opts.compress then
-    -- compress_NP21: the original first (unless it is a .cbin already), then the lf file
-    let ncall := if s.orig = .bin then 2 else 1
+  if m < 1 then (s3, ob1, .raised .injected) else
+  if ob.opts.compress then
+    -- compress_NP21: the original first (unless self.sr.is_mtscomp), then the lf file
+    let ncall := if ob.srForm = .bin then 2 else 1
     let q := stopAt call.interrupt Point.compressIdx ncall
     let s4 : Disk :=
-      if s.orig = .bin then
+      if ob.srForm = .bin then
         if 0 < q then { s3 with orig := .cbin, och := true, otmp := false } else { s3 with otmp := true }
       else s3
-    let s5 := { s4 with lf := compressFileSet call.overwrite (.good cfg.c) (ncall - 1) q s4.lf }
-    if q < ncall then (s5, .raised .injected) else (s5, .ret 1)
-  else (s3, .ret 1)
+    -- self.ap_file = cbin_file; self.sr = spikeglx.Reader(self.ap_file)
+    let ob2 := if ob.srForm = .bin ∧ 0 < q then { ob1 with srForm := .cbin, srSorted := true } else ob1
+    let s5 := { s4 with lf := compressFileSet call.overwrite (lfData cfg ob) (ncall - 1) q s4.lf }
+    if q < ncall then (s5, ob2, .raised .injected) else (s5, ob2, .ret 1)
+  else (s3, ob1, .ret 1)
 
 /-- Shank 0's ap file can be handed to the converter: complete data file and its metadata. -/
 def targetComplete (s : Disk) : Bool :=
@@ -333,21 +387,41 @@ def targetComplete (s : Disk) : Bool :=
        | .absent => sh.ap.cbin.isSome && sh.ap.ch
        | .part _ _ => false)
 
-/-- One call of a history. -/
-def run (cfg : Cfg) (call : Call) (s : Disk) : Disk × Result :=
+/-- `NP2Converter(file, …)`: the object, or the error of the constructor. -/
+def construct (cfg : Cfg) (call : Call) (s : Disk) : Except Err Obj :=
   if call.onShank then
-    -- check_metadata: the shank's meta carries "NP2.4_shank"; _process_NP24: if self.already_processed: return 0
+    -- check_metadata: the shank's meta carries "NP2.4_shank"
     match cfg.kind with
-    | .np24 => if targetComplete s then (s, .ret 0) else (s, .raised .outOfScope)
-    | _ => (s, .raised .outOfScope)
-  else
-    match cfg.kind with
-    | .np24 => process24 cfg call s
-    | .np21 => process21 cfg call s
-    | .np1 => if origReadable s then (s, .ret (-1)) else (s, .raised .noOriginal)
+    | .np24 => if targetComplete s then
+        .ok { opts := call.opts, onShank := true, srForm := .bin, srSorted := false, srClosed := false, checkCompleted := false, alreadyExists := false }
+      else .error .outOfScope
+    | _ => .error .outOfScope
+  else if origReadable s then
+    .ok { opts := call.opts, onShank := false, srForm := s.orig, srSorted := false, srClosed := false, checkCompleted := false, alreadyExists := false }
+  else .error .noOriginal
 
-/-- The disk after a history. -/
-def runs (cfg : Cfg) : Disk → List Call → Disk
+/-- `conv.process(overwrite)` on the object `ob`. -/
+def processObj (cfg : Cfg) (ob : Obj) (call : Call) (s : Disk) : Disk × Obj × Result :=
+  -- _process_NP24: if self.already_processed: return 0
+  if ob.onShank then (s, ob, .ret 0) else
+  match cfg.kind with
+  | .np24 => process24 cfg ob call s
+  | .np21 => process21 cfg ob call s
+  | .np1 => (s, ob, .ret (-1))
+
+/-- One call of a history. -/
+def run (cfg : Cfg) (call : Call) (st : St) : St × Result :=
+  if call.reuse then
+    match st.obj with
+    | none => (st, .raised .outOfScope)       -- there is no object to call again
+    | some ob => let r := processObj cfg ob call st.disk; (⟨r.1, some r.2.1⟩, r.2.2)
+  else
+    match construct cfg call st.disk with
+    | .error e => (⟨st.disk, none⟩, .raised e)
+    | .ok ob => let r := processObj cfg ob call st.disk; (⟨r.1, some r.2.1⟩, r.2.2)
+
+/-- The state after a history. -/
+def runs (cfg : Cfg) : St → List Call → St
   | s, [] => s
   | s, c :: cs => runs cfg (run cfg c s).1 cs
 
@@ -359,5 +433,8 @@ def fresh (o : Orig) : Disk :=
 behind; used for the finding `partial-folders-rerun`). -/
 def freshWith (o : Orig) (k : Nat) : Disk :=
   { fresh o with shanks := fun i => if i < k then some ⟨FileSet.empty, FileSet.empty⟩ else none }
+
+/-- Start of a history: that disk and no converter object yet. -/
+def St.start (d : Disk) : St := ⟨d, none⟩
 
 end IblVerif.Converter
